@@ -78,6 +78,17 @@ func decide(t fataler, s *graph.Scenario, plans map[int]graph.WrapPlan, tag stri
 		if b, ok := in.Out.Panic.(graph.BudgetExceeded); ok {
 			t.Fatalf("C03: start-up did not terminate: %v\n%s", b, desc)
 		}
+		wrapsPointerReferenced := false
+		for id := range plans {
+			if id < len(s.Nodes) && s.Nodes[id].Variant == 'N' {
+				wrapsPointerReferenced = true
+			}
+		}
+		if wrapsPointerReferenced {
+			// a substitute that does not fit a *N field: the start is refused (how - error or panic - is C09's subject)
+			kit.Rec.Case(desc, false, "start-refused-substitute-does-not-fit")
+			return
+		}
 		t.Fatalf("C03: start-up panicked: %v\n%s", in.Out.Panic, desc)
 	}
 	g := in.G
@@ -148,10 +159,45 @@ func decide(t fataler, s *graph.Scenario, plans map[int]graph.WrapPlan, tag stri
 			}
 		}
 	}
+	// ... and what lookups made from Init during the start were handed
+	for i, b := range in.Behs {
+		if b == nil || !created[in.Comp(i).Name] {
+			continue
+		}
+		for _, r := range b.Looked {
+			if r.Err != nil || r.Got == nil {
+				continue
+			}
+			// Programmatic lookups are not injection points: the container does not know who called, so it cannot refuse a
+			// start because of them (same as in Spring). What it does decide itself is which object to publish when the
+			// ONLY substitution happened at early-reference time - then the early reference it handed to the lookup is
+			// the final version. Other timings are outside the dependency-graph quantifier of the property.
+			pl, wrapped := wrap.Plan[r.Name]
+			if wrapped && (pl.Early != graph.WrapNew || pl.Before != 0 || pl.Inst != 0 || pl.After == graph.WrapNew) {
+				continue
+			}
+			if pub, ok := published[r.Name]; ok && r.Got != pub {
+				t.Fatalf("C03: start-up succeeded with mixed versions of %q: the lookup made by %s in its Init was handed %v, the container publishes %v\n%s", r.Name, in.Comp(i).Name, r.Got, pub, desc)
+			}
+			labels = append(labels, "init-time-lookup-checked")
+		}
+	}
 	if len(wrap.EarlyW) > 0 {
 		labels = append(labels, "early-wrapper-handed-out")
 	}
-	kit.Rec.Case(desc, onCycle, labels...)
+	kit.Rec.Case(desc, onCycle, dedupLabels(labels)...)
+}
+
+func dedupLabels(xs []string) []string {
+	m := map[string]bool{}
+	var out []string
+	for _, x := range xs {
+		if !m[x] {
+			m[x] = true
+			out = append(out, x)
+		}
+	}
+	return out
 }
 
 func genPlan(t *rapid.T) graph.WrapPlan {
@@ -170,6 +216,12 @@ func TestRandom(t *testing.T) {
 		plans := map[int]graph.WrapPlan{}
 		for i, n := range s.Nodes {
 			if n.Variant != 'N' && rapid.IntRange(0, 2).Draw(t, "wrapped") > 0 {
+				plans[i] = genPlan(t)
+			}
+			// now and then a node that others may reference through its concrete pointer type (Pv *N) is substituted
+			// as well: the substitute does not fit such a field, which must never end in a start that succeeds with
+			// the raw object there
+			if n.Variant == 'N' && rapid.IntRange(0, 5).Draw(t, "wrappedN") == 0 {
 				plans[i] = genPlan(t)
 			}
 		}
